@@ -118,6 +118,15 @@ CORP = {
         H([dict(C("C0", api="define", frozen=True, fields=[F("x")]),
                 deco_hist=[{"own": ["setattr", "hash"], "base": "dict_attrs", "field": False}, {"own": ["init", "getstate"], "base": "slotted_attrs", "field": True}])]),
         {"pos": ["t1"], "kw": []}, ["hash", "copy", {"pickle": {"proto": 2}}, {"del": {"name": "x"}}, {"evolve": {"changes": [["x", "n1"]]}}], "valid"),
+    # history: hash the original (fills the cache), then evolve / copy: the result hashes like a fresh twin
+    "hash-then-evolve-dict-cache-plain-fields": (
+        H([C("C0", frozen=True, slots=False, cache_hash=True, unsafe_hash=True, fields=[F("x"), F("y", default="value")])],
+          tail=[{"name": "T0", "plain_slots": False}]),
+        {"pos": ["t1"], "kw": []}, ["hash", {"evolve": {"changes": [["x", "n1"]]}}, "copy", {"evolve": {"changes": []}}, "deepcopy"], "valid"),
+    "hash-then-evolve-frozen-via-ancestor-define-dict-cache": (
+        H([C("C0", api="frozen", frozen=None, slots=False, fields=[F("x")]),
+           C("C1", api="define", frozen=False, slots=False, cache_hash=True, unsafe_hash=True, fields=[F("y")])]),
+        {"pos": ["t1", "t2"], "kw": []}, ["hash", {"evolve": {"changes": [["y", "n1"]]}}, {"pickle": {"proto": 4}}], "valid"),
     "dict-below-plain-below-slots-make-class": (
         H([C("C0", frozen=True, slots=True, collect_by_mro=True, fields=[F("x")]), P("P1"),
            C("C2", api="make_class", frozen=False, slots=False, collect_by_mro=True, fields=[F("y")])], tail=[{"name": "T0", "plain_slots": False}]),
